@@ -55,7 +55,6 @@ def uuid_freshness(fresh_consts, formulas):
 
 def _ematch(hyps, g, axioms, timeout_ms):
     se = z3.Solver()
-    se.set("timeout", int(max(4000, timeout_ms * 0.4)))
     se.set("smt.mbqi", False)
     se.set("smt.auto_config", False)
     for a_ in axioms:
@@ -63,7 +62,7 @@ def _ematch(hyps, g, axioms, timeout_ms):
     se.add(*hyps)
     se.add(z3.Not(g))
     from .inst import guarded_check
-    return guarded_check(se, int(max(4000, timeout_ms * 0.4))) == z3.unsat
+    return guarded_check(se, timeout_ms, "ematch") == z3.unsat
 
 
 def solve(hyps, goal, axioms=(), timeout_ms=10000, want_model=True):
@@ -71,6 +70,8 @@ def solve(hyps, goal, axioms=(), timeout_ms=10000, want_model=True):
     The goal is skolemised and split into conjuncts; each conjunct goes through: E-matching (MBQI off),
     pointwise instantiation, finite-universe refutation, full z3, cvc5."""
     from .inst import pointwise_check, skolemize_goal
+    from . import budget as _b0
+    wall0 = _b0.WALL_HIT[0]
     t0 = time.time()
     hyps = list(hyps)
     if mentions_decl(hyps + [goal], "str_lt"):
@@ -102,19 +103,18 @@ def solve(hyps, goal, axioms=(), timeout_ms=10000, want_model=True):
             if done:
                 continue
             from .finite import finite_refute
-            fr = finite_refute(hyps, g, axioms, timeout_ms=min(timeout_ms, 5000))
+            fr = finite_refute(hyps, g, axioms, timeout_ms=timeout_ms)
             if fr is not None:
                 mt, m, ctx, n = fr
                 return "refuted", f"z3-{z3.get_version_string()}-finite-universe{n}", time.time() - t0, mt, m
         s = z3.Solver()
-        s.set("timeout", timeout_ms)
         for a in axioms:
             s.add(a)
         for h in hyps:
             s.add(h)
         s.add(z3.Not(g))
         from .inst import cli_check
-        r, mtxt = cli_check(s, timeout_ms, want_model=True)
+        r, mtxt = cli_check(s, timeout_ms, want_model=True, stage="full")
         if r == "unsat":
             backends.add("full")
             continue
@@ -125,23 +125,42 @@ def solve(hyps, goal, axioms=(), timeout_ms=10000, want_model=True):
         if st2 == "unsat":
             backends.add("cvc5")
             continue
-        return "unknown", "z3+cvc5", time.time() - t0, s.reason_unknown(), None
+        from . import budget as _b
+        if _b.WALL_HIT[0] > wall0:
+            return "timeout", "z3+cvc5 (wall-clock safety net fired: not a verdict)", time.time() - t0, "", None
+        return "unknown", "z3+cvc5", time.time() - t0, "resource budget exhausted", None
     be = "z3-" + z3.get_version_string() + ("-" + "+".join(sorted(backends)) if backends else "")
     return "proved", be, time.time() - t0, None, None
 
 
 def cvc5_check(smt, timeout_ms):
+    from . import budget
     t0 = time.time()
+    path = None
     try:
         with tempfile.NamedTemporaryFile("w", suffix=".smt2", delete=False) as f:
             f.write("(set-logic ALL)\n" + smt)
             path = f.name
-        p = subprocess.run(["/usr/bin/cvc5", f"--tlimit={timeout_ms}", path], capture_output=True, text=True, timeout=timeout_ms / 1000 + 5)
+        wall = budget.wall_ms(timeout_ms, "cvc5")
+        p = subprocess.run(["/usr/bin/cvc5", f"--rlimit={budget.rl(timeout_ms, 'cvc5')}", f"--tlimit={wall}", path],
+                           capture_output=True, text=True, timeout=wall / 1000 + 10)
         out = p.stdout.strip().splitlines()
-        os.unlink(path)
-        return (out[0] if out else "error"), time.time() - t0
+        res = out[0] if out else "error"
+        if res not in ("sat", "unsat") and (time.time() - t0) * 1000 >= wall * 0.95:
+            budget.wall_hit("cvc5")
+        budget.log("cvc5", res, 0, time.time() - t0, budget.rl(timeout_ms, "cvc5"))
+        return res, time.time() - t0
+    except subprocess.TimeoutExpired:
+        budget.wall_hit("cvc5")
+        return "error", time.time() - t0
     except Exception as e:  # noqa
         return "error", time.time() - t0
+    finally:
+        if path:
+            try:
+                os.unlink(path)
+            except OSError:
+                pass
 
 
 def model_text(m):
@@ -263,9 +282,15 @@ def capture_closure(ex, key, spec):
     return fv, st, first_args
 
 
-def verify_function(ex, key, timeout_ms=10000, extra_pre=()):
-    """execute the real body of `key` under its contract -> FnReport"""
+def verify_function(ex, key, timeout_ms=10000, extra_pre=(), only=None):
+    """execute the real body of `key` under its contract -> FnReport.  `only`: indices (positions in the result list)
+    of the obligations to decide; the others are marked `skipped` (used by the per-obligation retry)"""
     rep = FnReport(key)
+
+    def solve_ob(hy, goal, axioms, tmo):
+        if only is not None and len(rep.results) not in only:
+            return "skipped", "-", 0.0, None, None
+        return solve(hy, goal, axioms, tmo)
     t0 = time.time()
     spec = ex.specs.get(key)
     try:
@@ -293,6 +318,8 @@ def verify_function(ex, key, timeout_ms=10000, extra_pre=()):
         links = _cm.take_links()
         for c in extra_pre:
             st = st.assume(c)
+        for gname, gfn in getattr(spec, "ghost_defs", ()):
+            st = st.assume(gfn(a))
         # vacuity: the precondition must be satisfiable
         if not ex.feasible(st.pc):
             rep.status = "error"
@@ -319,7 +346,7 @@ def verify_function(ex, key, timeout_ms=10000, extra_pre=()):
                 rep.raise_paths += 1
                 if not spec.may_raise:
                     oid = f"{key}.no_raise.path{i}@{out.val.where}"
-                    status, be, secs, mt, m = solve(out.st.hyps, z3.BoolVal(False), axioms, timeout_ms)
+                    status, be, secs, mt, m = solve_ob(out.st.hyps, z3.BoolVal(False), axioms, timeout_ms)
                     rep.results.append(ObResult(oid, "no-raise", status, be, secs, spec.raise_props,
                                                 detail=f"{out.val.exc!r} raised at line {out.val.where}", model=mt,
                                                 meta={"z3model": m, "args": args, "path": i}))
@@ -340,12 +367,12 @@ def verify_function(ex, key, timeout_ms=10000, extra_pre=()):
                     else:
                         conds.append(v_eq(got[fname], fval))
                     goal = conds[-1]
-                    status, be, secs, mt, m = solve(out.st.hyps, z3_bool(goal), axioms, timeout_ms)
+                    status, be, secs, mt, m = solve_ob(out.st.hyps, z3_bool(goal), axioms, timeout_ms)
                     rep.results.append(ObResult(f"{key}.report_field.{fname}.path{i}", "ensures", status, be, secs,
                                                 spec.report_props, model=mt, meta={"path": i}))
                 for cname_, cfn, cprops in getattr(spec, "report_clauses", []):
                     goal = cfn(a, got) if ok_shape else False
-                    status, be, secs, mt, m = solve(out.st.hyps, z3_bool(goal), axioms, timeout_ms)
+                    status, be, secs, mt, m = solve_ob(out.st.hyps, z3_bool(goal), axioms, timeout_ms)
                     rep.results.append(ObResult(f"{key}.{cname_}.path{i}", "ensures", status, be, secs, cprops, model=mt, meta={"path": i}))
                 continue
             res = normalize(out.val, ret_ty)
@@ -361,14 +388,14 @@ def verify_function(ex, key, timeout_ms=10000, extra_pre=()):
                     continue
                 hy = list(out.st.hyps) + links + lem + _cm.take_links()
                 hy += uuid_freshness(ex.fresh_uuids, hy + [z3_bool(goal)])
-                status, be, secs, mt, m = solve(hy, z3_bool(goal), axioms, timeout_ms)
+                status, be, secs, mt, m = solve_ob(hy, z3_bool(goal), axioms, timeout_ms)
                 rep.results.append(ObResult(f"{key}.{c.name}.path{i}", "ensures", status, be, secs, c.props, model=mt,
                                             meta={"z3model": m, "args": args, "result": res, "path": i}))
             if len(rep.path_samples) < 3:
                 rep.path_samples.append({"path": i, "pc": [str(z3.simplify(p))[:200] for p in out.st.pc[:8]],
                                          "result": repr(res)[:300], "reports": [repr(r) for r in out.st.reports]})
         for ob in ex.obligations:
-            status, be, secs, mt, m = solve(list(ob.hyps) + links, ob.goal, axioms, timeout_ms)
+            status, be, secs, mt, m = solve_ob(list(ob.hyps) + links, ob.goal, axioms, timeout_ms)
             rep.results.append(ObResult(ob.oid, ob.kind, status, be, secs, tuple(ob.meta.get("props", ())), model=mt, meta={"z3model": m, "args": args}))
         if rep.paths == 0 and rep.raise_paths == 0:
             rep.status = "error"
